@@ -23,7 +23,7 @@ RULE = ("seeded random frames (>=1 row, >=2 columns; bool/int/float/str/date/dat
         "read back over {pickle,npz,parquet,csv,json} x {plain,.gz,.bz2,.xz} x {sep, header, encoding, compress, compression}; non-trivial "
         "= every executed round trip; distinct = distinct (class, format, suffix, option, column kinds) signatures")
 ASSUMPTIONS = [
-    "CSV representability: each string column holds a value that cannot be parsed as number/bool/date/null, >= 2 columns, no bare carriage return, datetimes compared as instants (incl. years outside the nanosecond range 1678-2261); without header only values are compared",
+    "CSV representability: each string column holds a value that cannot be parsed as number/bool/date/null, >= 2 columns (a missing value of a single-column frame is an empty line), datetimes compared as instants (incl. years outside the nanosecond range 1678-2261); without header only values are compared",
     "JSON representability: bool/int/float/string columns (+None); dates are read back with the documented dtypes= map",
     "text must be encodable in the chosen encoding; BOM encodings (utf-16, utf-8-sig) are combined with plain and .gz paths only (CPython's text layer over the non-seekable bz2 / lzma write streams emits no BOM, so 'utf-16' cannot read the file back: an interpreter quirk, not the library's)",
     "compression magic is asserted for writers documented to compress by suffix (csv, json, pickle); for npz and parquet only the round trip is asserted",
